@@ -7,6 +7,11 @@
 //! `__vdso_clock_gettime`.  vDSO calls are not system calls, so no syscall seam sees them; the
 //! only observation point is the value that comes back.
 //!
+//! The same binary is also run through `synth/loader.c` (a user-space exec that changes nothing
+//! but AT_SYSINFO_EHDR) against the synthetic vDSO images built from `synth/fakevdso.S`, in which
+//! `__vdso_clock_gettime` sits at a chosen 16-byte phase of a `.text` with a chosen `sh_addralign`
+//! and is surrounded by decoy functions answering a recognisably wrong time.
+//!
 //! For every clock-reading entry point of `tiny_std::time`
 //!     0 MonotonicInstant::now      1 Instant::now
 //!     2 MonotonicInstant::elapsed  3 Instant::elapsed          (clock: CLOCK_MONOTONIC)
@@ -20,7 +25,8 @@
 //! `elapsed()` entry points are turned into a reading as `base + elapsed`, the base being a
 //! `now()` of the same type taken at the start of the section on the same path.
 //!
-//! Control block on stdin: `"PCK1" <n:u32 le> <have_sym:u8> <delta:i64 le>`; `delta` is the
+//! Control block on stdin: `"PCK1" <n:u32 le> <have_sym:u8> <delta:i64 le>` (`have_sym`: 0 symbol
+//! unknown, 1 known and path 1 wanted, 2 known but only report the pointer); `delta` is the
 //! link-time distance from `PROBE_ANCHOR` to tiny-std's private
 //! `elf::vdso::VDSO_CLOCK_GET_TIME` (found by the driver in the symbol table).
 //!
@@ -268,10 +274,12 @@ pub fn main() -> i32 {
     }
     let mut n = 1000u32;
     let mut have_sym = false;
+    let mut force_fallback = false;
     let mut delta = 0i64;
     if ctl_len >= 17 && &ctl[..4] == b"PCK1" {
         n = u32::from_le_bytes([ctl[4], ctl[5], ctl[6], ctl[7]]);
-        have_sym = ctl[8] == 1;
+        have_sym = ctl[8] >= 1;
+        force_fallback = ctl[8] == 1;
         delta = i64::from_le_bytes(ctl[9..17].try_into().unwrap_or([0; 8]));
     }
     let anchor = core::ptr::addr_of!(PROBE_ANCHOR) as usize;
@@ -291,7 +299,7 @@ pub fn main() -> i32 {
         section(e, 0, n);
         e += 1;
     }
-    if have_sym && orig != 0 {
+    if force_fallback && orig != 0 {
         // `Option<extern "C" fn ..>` is one word, `None` is 0
         unsafe { core::ptr::write_volatile(slot, 0) };
         e = 0;
